@@ -290,6 +290,9 @@ def merge_val(c, a, b, name="m"):
             for k in set(a.fields) | set(b.fields):
                 if k in a.fields and k in b.fields:
                     fields[k] = merge_val(c, a.fields[k], b.fields[k], name + "." + k)
+                elif a.cls == "__kwdict__":
+                    # dict with string keys: a key set on one path only is an optional entry
+                    fields[k] = merge_val(c, a.fields.get(k), b.fields.get(k), name + "." + k)
                 else:
                     fields[k] = a.fields.get(k, b.fields.get(k))
             return ObjV(cls, fields)
